@@ -338,6 +338,27 @@ pub fn gen_c07(rng: &mut Rng, thorough: bool) -> Vec<Tagged> {
             out.push((format!("{:?}-long-3d-fwd", a), Case::Act(a, false, t3(c, h, w, &v3))));
         }
     }
+    // huge inputs: more than 2^13, 2^14 and 2^16 elements (the sizes at which a parallel or blocked fast path of
+    // an element-wise map would switch on), 3-D with height != width (a transposed rebuild would show) and
+    // flat, every activation, forward and backward
+    for (k, &(c, h, w)) in [(2usize, 48usize, 96usize), (1, 100, 180), (3, 150, 147), (1, 1, 8193), (1, 129, 127)].iter().enumerate() {
+        for (ai, a) in ALL_ACTS.into_iter().enumerate() {
+            if !(thorough || k == 0 || (k + ai) % 5 == 0) {
+                continue;
+            }
+            let n = c * h * w;
+            let v3: Vec<f32> = (0..n).map(|i| ((i * 37 + k) % 1013) as f32 * 0.01 - 5.0 + if i % 97 == 0 { rng.sym() } else { 0.0 }).collect();
+            for bwd in [false, true] {
+                if bwd && a == Act::Softmax {
+                    continue;
+                }
+                out.push((format!("{:?}-huge-3d-{}", a, if bwd { "bwd" } else { "fwd" }), Case::Act(a, bwd, t3(c, h, w, &v3))));
+                if k % 2 == 0 {
+                    out.push((format!("{:?}-huge-flat-{}", a, if bwd { "bwd" } else { "fwd" }), Case::Act(a, bwd, t1(v3.clone()))));
+                }
+            }
+        }
+    }
     // boundary vector through every element-wise activation
     let edge = strat_floats(rng, 0);
     for a in ALL_ACTS {
@@ -807,6 +828,30 @@ pub fn gen_c03(rng: &mut Rng, thorough: bool) -> Vec<Tagged> {
                 (0usize, 0usize, false, *nr, tensor_of_shape(&shape, &[0.5 - 0.1 * s as f32, -0.75 + 0.05 * s as f32, if s % 2 == 0 { 1e-3 } else { -2e-3 }]))
             }).collect();
             out.push((format!("{}-large-step-numbers", opt.kind()), Case::OptHistory { opt, vals: vec![vec![vec![w]]], steps }));
+        }
+    }
+    // the same optimizer value attached (validated) again between phases of steps, with the same layout: the
+    // running statistics are zero-initialised at every attachment (the second phase restarts at step 1, or at a
+    // later step number), the parameters carry on; every optimizer kind, every rank
+    for kind in 0..5 {
+        for variant in 0..(if thorough { 9 } else { 3 }) {
+            let opt = rand_opt(rng, kind);
+            let shape = [Shape::Single(3), Shape::Double(2, 2), Shape::Triple(1, 2, 2)][variant % 3].clone();
+            let n = shape_numel(&shape);
+            let vals = vec![vec![vec![tensor_of_shape(&shape, &rng.vec(n, 2)), t1(rng.vec(2, 2))]]];
+            let mut phases = vec![];
+            for ph in 0..(2 + variant % 2) {
+                let mut steps = vec![];
+                let mut nr = if ph > 0 && variant % 3 == 2 { 3 } else { 1 };
+                for s in 0..rng.range(2, 5) {
+                    let b = s % 3 == 2;
+                    let sh = vals[0][0][b as usize].shape.clone();
+                    steps.push((0usize, 0usize, b, nr, tensor_of_shape(&sh, &grad_stream(rng, (kind + variant) % 6, s, shape_numel(&sh)))));
+                    nr += 1;
+                }
+                phases.push(steps);
+            }
+            out.push((format!("{}-attached-again-rank{}", opt.kind(), variant % 3 + 1), Case::OptPhases { opt, vals, phases }));
         }
     }
     // wrong slot / rank mismatch is refused
